@@ -9,6 +9,7 @@ class CallGraph:
     def __init__(self, facts):
         self.facts = facts
         self.edges = defaultdict(set)  # body path -> set of local body paths
+        self.static_edges = defaultdict(set)  # same, without dynamic-dispatch edges
         self.ext = defaultdict(set)  # body path -> set of external callee names (normalised)
         self.sites = defaultdict(list)  # body path -> [(bb, Term)]
         self.trait_impls = defaultdict(list)  # trait method path -> [impl method path]
@@ -22,6 +23,8 @@ class CallGraph:
                 for tgt in self.targets(t.callee):
                     if tgt in facts.bodies:
                         self.edges[b.path].add(tgt)
+                        if t.callee.resolved and t.callee.ikind != "virtual":
+                            self.static_edges[b.path].add(tgt)
                     else:
                         self.ext[b.path].add(tgt)
             # closures / coroutines created here
@@ -31,6 +34,7 @@ class CallGraph:
                         d = s.rv.j["def"]
                         if d in facts.bodies:
                             self.edges[b.path].add(d)
+                            self.static_edges[b.path].add(d)
             # fn items passed as values
             for blk in b.blocks:
                 for s in blk.stmts:
